@@ -87,6 +87,20 @@ def run_rel(unit, only=None):
                 "optional": basic.BasicDecoder(T.Optional[D]).decode,
                 "outer": lambda x: Outer.from_dict({"f": x}).f,
             }
+            # a second, different dataclass next to D in one fixed tuple (both orders): each position is its own element codec
+            import datetime as _dt
+            ctx.ns["_date"] = _dt.date
+            Other = ctx.execute("OtherDC", "@dataclass\nclass OtherDC:\n    f0: _date\n    extra: str = 'n'\n")
+            other = Other(_dt.date(2023, 5, 6), "e")
+            other_wire = basic.BasicEncoder(Other).encode(other)
+            t_do, t_od = basic.BasicEncoder(T.Tuple[D, Other]).encode, basic.BasicEncoder(T.Tuple[Other, D]).encode
+            encs["tuple2-first"] = lambda x: t_do((x, other))[0]
+            encs["tuple2-last"] = lambda x: t_od((other, x))[1]
+            sibling = {"tuple2-first": lambda x: t_do((x, other))[1], "tuple2-last": lambda x: t_od((other, x))[0]}
+            d_do, d_od = basic.BasicDecoder(T.Tuple[D, Other]).decode, basic.BasicDecoder(T.Tuple[Other, D]).decode
+            decs["tuple2-first"] = lambda x: d_do([x, copy.deepcopy(other_wire)])[0]
+            decs["tuple2-last"] = lambda x: d_od([copy.deepcopy(other_wire), x])[1]
+            dsibling = {"tuple2-first": lambda x: d_do([x, copy.deepcopy(other_wire)])[1], "tuple2-last": lambda x: d_od([copy.deepcopy(other_wire), x])[0]}
             if variant == "mixin":
                 encs["mixin"] = lambda x: x.to_dict()
                 decs["mixin"] = D.from_dict
@@ -116,6 +130,10 @@ def run_rel(unit, only=None):
             if base[0] != "ok":
                 res.outcomes["encode-raised"] += 1
                 continue
+            for path, fn in sibling.items():
+                r = e1.outcome(fn, v)
+                if r[0] != "ok" or not ref.same(r[1], other_wire):
+                    V("encode-paths-disagree", path + "-sibling", idx, f"the OTHER dataclass of the tuple: element codec={other_wire!r} {path}={_sh(r)}")
             enc = base[1]
             if not ref.same(enc, v):
                 res.nontrivial += 1
@@ -127,6 +145,11 @@ def run_rel(unit, only=None):
                         (r[0] == "exc" and type(r[1]) is not type(bdec[1])):
                     V("decode-paths-disagree", path, idx, f"input={enc!r:.200} codec={_sh(bdec)} {path}={_sh(r)}")
                     res.outcomes["decode-disagree"] += 1
+            if bdec[0] == "ok":
+                for path, fn in dsibling.items():
+                    r = e1.outcome(fn, copy.deepcopy(enc))
+                    if r[0] != "ok" or r[1] != other:
+                        V("decode-paths-disagree", path + "-sibling", idx, f"the OTHER dataclass of the tuple: expected {other!r} {path}={_sh(r)}")
             # format codecs: same logical document, same decoded value (inside the format's representable subset)
             for fmt, fn in fencs.items():
                 res.transitions += 2
